@@ -92,7 +92,8 @@ theorem pushElem_sep {sep : Byte} {p : Path} {es : List (List Byte)} (h : ArrS s
       rw [hS.hsep]; simpa using hse
     simp only [e3, e4, Bool.false_eq_true, ↓reduceIte]
     have hne : p.off + p.len ≠ 0 := by omega
-    simp only [hne, ne_eq, not_false_eq_true, ↓reduceIte]
+    have hne' : p.len ≠ 0 := by omega
+    simp only [hne, hne', ne_eq, not_false_eq_true, ↓reduceIte]
     congr 1
     -- the two writes
     have hpl : p.off + p.len = (joinSep sep es).length + 1 := by omega
@@ -197,7 +198,7 @@ theorem pathDel_sep {sep : Byte} {p : Path} {es : List (List Byte)} {e : List By
       simp [delScan]
     refine ⟨{ p with base := [], len := 0, first := 0, keepPost := false }, ?_, fun hne => absurd rfl hne, fun _ => ?_⟩
     · simp only [pathDel, hl0, ↓reduceIte, hS.bin, Bool.false_eq_true, hS.hsep, hscan, h.arr]
-      simp
+      simp [ho]
     · exact ⟨ho, rfl, hS.bin, hS.hsep, Or.inr ⟨h.arr, rfl, rfl⟩⟩
   · rw [joinSep_snoc sep es e hes] at hbase hl
     have hscan : delScan p.base sep p.len (p.len + p.off - 2) 0 = .ok ((joinSep sep es).length + 1, e.length) := by
@@ -217,7 +218,7 @@ theorem pathDel_sep {sep : Byte} {p : Path} {es : List (List Byte)} {e : List By
       ?_, fun _ => ?_, fun he => absurd he hes⟩
     · simp only [pathDel, hl0, ↓reduceIte, hS.bin, Bool.false_eq_true, hS.hsep, hscan, h.arr]
       have : ¬ (joinSep sep es).length + 1 > p.base.length := by rw [hbase]; simp
-      simp [this]
+      simp [this, ho]
     · refine ⟨h.arr, rfl, sep, ?_⟩
       refine ⟨?_, by simp, by simpa using ho, rfl, hS.bin, hS.hsep, ?_⟩
       · simp only [hbase, List.nil_append, List.append_assoc]
@@ -359,7 +360,8 @@ theorem pushElem_bin {p : Path} {es : List (List Byte)} (h : ArrB p es) (hes : e
     have e2 : (p.base ++ e).length - (p.off + p.len) = e.length := by simp; omega
     have e3 : ¬ e.length > 255 := by omega
     have hne : p.off + p.len ≠ 0 := by omega
-    simp only [e1, ↓reduceIte, e2, Nat.lt_irrefl, Nat.sub_self, e3, Nat.zero_lt_succ, Nat.sub_zero, hne, ne_eq,
+    have hne' : p.len ≠ 0 := by omega
+    simp only [e1, ↓reduceIte, e2, Nat.lt_irrefl, Nat.sub_self, e3, Nat.zero_lt_succ, Nat.sub_zero, hne, hne', ne_eq,
       not_false_eq_true]
     congr 1
     simp only [Path.mk.injEq, and_true, true_and]
@@ -480,7 +482,7 @@ theorem pathDel_bin {p : Path} {es : List (List Byte)} {e : List Byte} (h : ArrB
       simp only [e1, ↓reduceIte, e2, e3, ne_eq, not_false_eq_true, e4, hback, Option.map_some,
         toNat_ofNat_small _ hle, not_true_eq_false, h.arr]
       have : ¬ D.length + 1 > p.base.length := by rw [hbase]; simp
-      simp [this]
+      simp [this, ho]
     · have htake : p.base.take (D.length + 1) = encBin (UInt8.ofNat e.length) es := by
         rw [hbase, show D ++ UInt8.ofNat e.length :: e ++ [UInt8.ofNat e.length, y]
           = (D ++ [UInt8.ofNat e.length]) ++ (e ++ [UInt8.ofNat e.length, y]) by simp, List.take_left' (by simp),
